@@ -67,6 +67,8 @@ pub struct Model {
     /// per vAMM: cumulative premium fraction accumulated by the harness from its own reference premium of every
     /// successful settlement (None once a settlement could not be referenced)
     pub cum_ref: Vec<Option<i128>>,
+    /// the insurance fund's registry as the history of accepted AddVamm / RemoveVamm calls implies it
+    pub registry_ref: BTreeSet<String>,
 }
 
 /// Evidence and violation collector for one run.
@@ -278,6 +280,7 @@ impl Runner {
         if cfg.kind == WorldKind::FeedOnly {
             model.feed.push(vec![]);
         }
+        model.registry_ref = obs.registry.iter().cloned().collect();
         let mut ev = Ev::default();
         ev.property = prop.to_string();
         // harness self-check: the raw census agrees with the public balance queries
@@ -476,6 +479,14 @@ impl Runner {
                 }
                 Op::PayFunding { vamm } | Op::SettleFunding { vamm } => {
                     self.model.settlements[*vamm] += 1;
+                }
+                Op::AddVamm { vamm } => {
+                    let a = self.w.resolve(vamm);
+                    self.model.registry_ref.insert(a);
+                }
+                Op::RemoveVamm { vamm } => {
+                    let a = self.w.resolve(vamm);
+                    self.model.registry_ref.remove(&a);
                 }
                 Op::VammConfig { vamm, insurance_fund: Some(x), .. } => {
                     let a = self.w.resolve(x);
